@@ -73,12 +73,22 @@ where
     out
 }
 
-/// storage of the ring buffer, a function of the request line only
+/// storage of the ring buffer and the start offset of the (empty) queue handed to `fork`, functions of the request
+/// line only.  `fork` asserts only that the buffer is EMPTY: an empty `Bounded` may sit at any start slot
+/// (`from_raw_parts(start, 0, data)`, or a buffer that was pushed to and popped before) — the branches' behaviour
+/// must not depend on it (`LinkFork.forkB_trace_sim` proves that of the model for every valid raw state)
 fn run_case(cap: usize, src: &[i32], ops: &[u8]) -> Option<Vec<Ob>> {
-    match (cap + src.len()) % 3 {
+    let start = if cap == 0 { 0 } else { (src.len() * 7 + ops.len() * 3 + ops.iter().map(|&b| b as usize).sum::<usize>()) % cap };
+    match (cap + src.len()) % 4 {
         0 => guarded(|| run_fork(ring_buffer::Bounded::from(vec![7i32; cap]), src, ops)),
-        1 => guarded(|| run_fork(ring_buffer::Bounded::from(vec![-3i32; cap].into_boxed_slice()), src, ops)),
-        _ => guarded(|| { let mut store = vec![11i32; cap]; run_fork(ring_buffer::Bounded::from(&mut store[..]), src, ops) }),
+        1 => guarded(|| run_fork(ring_buffer::Bounded::from_raw_parts(start, 0, vec![-3i32; cap].into_boxed_slice()), src, ops)),
+        2 => guarded(|| { let mut store = vec![11i32; cap]; run_fork(ring_buffer::Bounded::from_raw_parts(start, 0, &mut store[..]), src, ops) }),
+        _ => guarded(|| {
+            // a buffer that has been used: pushed and popped `start` times, now empty again
+            let mut rb = ring_buffer::Bounded::from(vec![5i32; cap]);
+            for k in 0..start { rb.push(-900 - k as i32); rb.pop(); }
+            run_fork(rb, src, ops)
+        }),
     }
 }
 
